@@ -767,7 +767,8 @@ def check(case, ctx):
             if unwritten:
                 for a, b in unwritten:
                     skip_cols.update(range(a, b))
-                violate('zero_row_logical_out_not_written', dict(base, block='2d'),
+                violate('zero_row_logical_out_not_written',
+                        dict(base, block='2d', unwritten_kinds=''.join(sorted({np.dtype(spec.dtypes[c]).kind for a, b in unwritten for c in range(a, b)}))),
                         layout=F.layout_name(lay), unwritten_columns=unwritten,
                         note='block-level function returns a Python bool and leaves out= untouched; frame cells are uninitialised memory')
 
